@@ -341,7 +341,8 @@ void Exec::op_foreign(Client &c) {
 		case 6: if (ins_before("COLUMNS\n", "RHS\n RHS " + r0 + " 1\n")) malwhat = "RHS section before COLUMNS"; break;
 		case 7: if (ins_before("RHS\n", " MARKER MARKER 'INTORG'\n zi1 obj 1\n S1 SOS 'MARKER' 'SOSORG'\n zi2 " + r0 + " 1\n")) malwhat = "integer and SOS markers left open"; break;
 		case 8: if (ins_before("ENDATA", " XX BND " + c0 + " 1\n BV BND\n FR\n")) malwhat = "unknown and truncated bound records"; break;
-		case 9: if (ins_before("ROWS\n", "OBJSENSE\nOBJNAME\n no_such_obj\nREFROW\n " + r0 + "\n")) malwhat = "empty OBJSENSE, unknown OBJNAME, REFROW"; break;
+		case 9: if ((mal / 14) % 2 == 0) { if (ins_before("ROWS\n", "OBJSENSE\nOBJNAME\n no_such_obj\nREFROW\n " + r0 + "\n")) malwhat = "empty OBJSENSE, unknown OBJNAME, REFROW"; }
+			else if (ins_before("ROWS\n", "REFROW\n no_such_row\n")) malwhat = "REFROW naming an undeclared row"; break;
 		default: if (ins_before("COLUMNS\n", " N obj\n L " + r0 + "\n")) malwhat = "objective and a row declared twice"; break;
 		}
 		else switch (mal % 6) {
